@@ -30,6 +30,8 @@ import (
 	"go/parser"
 	"go/token"
 	"go/types"
+	"math"
+	"math/big"
 	"os"
 	"path/filepath"
 	"sort"
@@ -72,6 +74,8 @@ type T struct {
 	structs map[string]string   // lean struct name -> declaration
 	sorder  []string
 	lits    map[string]bool // integer literals used at type α
+	libm    map[string]bool // functions that call libm directly
+	calls   map[string][]string
 	Errors  map[string]string
 }
 
@@ -83,7 +87,8 @@ func New(repo string) (*T, error) {
 	fset := token.NewFileSet()
 	return &T{repo: abs, fset: fset, imp: importer.ForCompiler(fset, "source", nil), pkgs: map[string]*pkgInfo{},
 		dirs: map[string]*pkgInfo{}, status: map[string]string{}, lean: map[string]string{}, mutates: map[string]bool{},
-		structs: map[string]string{}, lits: map[string]bool{"0": true, "1": true}, Errors: map[string]string{}}, nil
+		structs: map[string]string{}, lits: map[string]bool{"0": true, "1": true}, Errors: map[string]string{},
+		libm: map[string]bool{}, calls: map[string][]string{}}, nil
 }
 
 const modPath = "github.com/unixpickle/model3d/"
@@ -878,7 +883,7 @@ func (fx *fnCtx) block(stmts []ast.Stmt, k func() (string, error)) (string, erro
 		if !ok {
 			return "", fmt.Errorf("unsupported call statement")
 		}
-		ln, mut, err := fx.t.ensureFunc(callee)
+		ln, mut, err := fx.ensureCallee(callee)
 		if err != nil {
 			return "", err
 		}
@@ -1520,6 +1525,40 @@ func (fx *fnCtx) floatConst(v constant.Value, src string) (string, error) {
 			return fmt.Sprintf("(%s : α)", s), nil
 		}
 	}
+	// any other constant expression: the float64 Go materialises (exactly rounded once from the exact
+	// constant), written as an exact dyadic rational m / 2^k or m * 2^k
+	if f, _ := constant.Float64Val(v); !math.IsInf(f, 0) && !math.IsNaN(f) {
+		if f == 0 {
+			return "(0 : α)", nil
+		}
+		neg := f < 0
+		if neg {
+			f = -f
+		}
+		fr, e := math.Frexp(f) // f = fr * 2^e, fr in [0.5,1)
+		m := new(big.Int)
+		big.NewFloat(fr).SetMantExp(big.NewFloat(fr), 53).Int(m) // m = fr * 2^53 (exact)
+		e -= 53
+		for m.Bit(0) == 0 && m.Sign() != 0 {
+			m.Rsh(m, 1)
+			e++
+		}
+		var lit string
+		if e >= 0 {
+			mm := new(big.Int).Lsh(m, uint(e))
+			fx.t.lits[mm.String()] = true
+			lit = fmt.Sprintf("(%s : α)", mm.String())
+		} else {
+			d := new(big.Int).Lsh(big.NewInt(1), uint(-e))
+			fx.t.lits[m.String()] = true
+			fx.t.lits[d.String()] = true
+			lit = fmt.Sprintf("((%s : α) / (%s : α))", m.String(), d.String())
+		}
+		if neg {
+			return "(-" + lit + ")", nil
+		}
+		return lit, nil
+	}
 	return "", fmt.Errorf("float constant %s is outside the subset", v.ExactString())
 }
 
@@ -1930,6 +1969,47 @@ func (fx *fnCtx) composite(x *ast.CompositeLit) (string, error) {
 }
 
 // ensureFunc makes sure the callee (a function of one of this module's packages) is translated.
+func (fx *fnCtx) ensureCallee(f *types.Func) (string, bool, error) {
+	ln, mut, err := fx.t.ensureFunc(f)
+	if err == nil {
+		fx.t.calls[fx.fn] = append(fx.t.calls[fx.fn], calleeName(f))
+	}
+	return ln, mut, err
+}
+
+func calleeName(f *types.Func) string {
+	dir := strings.TrimPrefix(f.Pkg().Path(), modPath)
+	recv := ""
+	if sig := f.Type().(*types.Signature); sig.Recv() != nil {
+		rt := sig.Recv().Type()
+		if p, ok := rt.(*types.Pointer); ok {
+			rt = p.Elem()
+		}
+		if n, ok := types.Unalias(rt).(*types.Named); ok {
+			recv = n.Obj().Name()
+			dir = strings.TrimPrefix(n.Obj().Pkg().Path(), modPath)
+		}
+	}
+	return fullName(dir, recv, f.Name())
+}
+
+// usesLibm: the function or anything it calls uses a libm function.
+func (t *T) usesLibm(fn string, seen map[string]bool) bool {
+	if seen[fn] {
+		return false
+	}
+	seen[fn] = true
+	if t.libm[fn] {
+		return true
+	}
+	for _, c := range t.calls[fn] {
+		if t.usesLibm(c, seen) {
+			return true
+		}
+	}
+	return false
+}
+
 func (t *T) ensureFunc(f *types.Func) (lean string, mutates bool, err error) {
 	if f.Pkg() == nil || !strings.HasPrefix(f.Pkg().Path(), modPath) {
 		return "", false, fmt.Errorf("call of %s is outside the subset", f.FullName())
@@ -2005,7 +2085,7 @@ func (fx *fnCtx) call(x *ast.CallExpr, want types.Type) (string, error) {
 				if !ok {
 					return "", fmt.Errorf("unsupported qualified call %s.%s", id.Name, f.Sel.Name)
 				}
-				ln, mut, err := fx.t.ensureFunc(callee)
+				ln, mut, err := fx.ensureCallee(callee)
 				if err != nil {
 					return "", err
 				}
@@ -2027,7 +2107,7 @@ func (fx *fnCtx) call(x *ast.CallExpr, want types.Type) (string, error) {
 		if len(sel.Index()) != 1 {
 			return "", fmt.Errorf("promoted method call is outside the subset")
 		}
-		ln, mut, err := fx.t.ensureFunc(callee)
+		ln, mut, err := fx.ensureCallee(callee)
 		if err != nil {
 			return "", err
 		}
@@ -2048,7 +2128,7 @@ func (fx *fnCtx) call(x *ast.CallExpr, want types.Type) (string, error) {
 		if !ok {
 			return "", fmt.Errorf("call of %s is outside the subset (builtin, closure or variable)", f.Name)
 		}
-		ln, mut, err := fx.t.ensureFunc(callee)
+		ln, mut, err := fx.ensureCallee(callee)
 		if err != nil {
 			return "", err
 		}
@@ -2066,8 +2146,15 @@ func (fx *fnCtx) call(x *ast.CallExpr, want types.Type) (string, error) {
 
 func (fx *fnCtx) mathCall(name string, args []ast.Expr) (string, error) {
 	f64 := types.Typ[types.Float64]
-	un := map[string]string{"Sqrt": "HasSqrt.sqrt", "Abs": "absS"}
-	bin := map[string]string{"Min": "mn", "Max": "mx"}
+	un := map[string]string{"Sqrt": "HasSqrt.sqrt", "Abs": "absS",
+		// libm functions: uninterpreted in theorems (class HasLibm), Float's own at run time (not bit-compatible
+		// with Go's pure-Go implementations, so entries that use them are excluded from the bit-exact validation)
+		"Cos": "HasLibm.cos", "Sin": "HasLibm.sin", "Tan": "HasLibm.tan", "Acos": "HasLibm.acos", "Asin": "HasLibm.asin",
+		"Atan": "HasLibm.atan", "Exp": "HasLibm.exp", "Log": "HasLibm.log"}
+	bin := map[string]string{"Min": "mn", "Max": "mx", "Pow": "HasLibm.pow", "Atan2": "HasLibm.atan2"}
+	if strings.HasPrefix(un[name], "HasLibm") || strings.HasPrefix(bin[name], "HasLibm") {
+		fx.t.libm[fx.fn] = true
+	}
 	if l, ok := un[name]; ok && len(args) == 1 {
 		a, err := fx.exprAs(args[0], f64)
 		if err != nil {
@@ -2116,7 +2203,7 @@ func (t *T) Emit(module string, roots []Root) string {
 		}
 		return lits[i] < lits[j]
 	})
-	sb.WriteString("section\nvariable {α : Type} [_root_.Add α] [_root_.Sub α] [_root_.Mul α] [_root_.Div α] [_root_.Neg α] [_root_.LT α] [DecidableLT α] [_root_.LE α] [DecidableLE α]\n  [_root_.OfScientific α] [HasSqrt α]")
+	sb.WriteString("section\nvariable {α : Type} [_root_.Add α] [_root_.Sub α] [_root_.Mul α] [_root_.Div α] [_root_.Neg α] [_root_.LT α] [DecidableLT α] [_root_.LE α] [DecidableLE α]\n  [_root_.OfScientific α] [HasSqrt α] [HasLibm α]")
 	for _, l := range lits {
 		sb.WriteString(" [_root_.OfNat α " + l + "]")
 	}
@@ -2270,6 +2357,7 @@ type TableEntry struct {
 	NIn     int
 	NOut    int
 	Mutates bool
+	Libm    bool // uses cos/sin/pow...: not bit-comparable with Go's implementations
 }
 
 // emitTable renders `kernelTable`: every root whose parameters and results flatten to floats
@@ -2339,7 +2427,7 @@ func (t *T) emitTable(roots []Root) (string, []TableEntry) {
 		}
 		first = false
 		fmt.Fprintf(&sb, "  (%q, %d, fun (a : Array Float) => let r := %s (α := Float) %s; ([%s] : List Float))", r.String(), idx, t.lean[fn], strings.Join(args, " "), strings.Join(outs, ", "))
-		entries = append(entries, TableEntry{Root: r, NIn: idx, NOut: len(outs), Mutates: t.mutates[fn]})
+		entries = append(entries, TableEntry{Root: r, NIn: idx, NOut: len(outs), Mutates: t.mutates[fn], Libm: t.usesLibm(fn, map[string]bool{})})
 	}
 	sb.WriteString("]\n")
 	return sb.String(), entries
